@@ -1,12 +1,17 @@
 #!/bin/bash
-# Re-confirms every seeded change against the current /repo and /verif: patch still applies, demo
-# fails with / passes without, and the named checks report a VIOLATION. Summary on stdout.
+# usage: tools_seed_all.sh [regex over seeded ids, default all]
+# Re-confirms seeded changes against the current /repo and /verif: patch still applies, demo
+# fails with / passes without, and the named checks report a VIOLATION. One RESULT line each.
 cd /verif
+FILTER="${1:-.}"
 for D in seeded/*/; do
   ID=$(basename "$D"); P=${ID%-*}; V=${ID#*-}
+  echo "$ID" | grep -Eq "$FILTER" || continue
+  [ -f "$D/patch.diff" ] || continue
   # seeded/ is the source of truth: stage a copy where tools_seed.sh expects a delivery
-  rm -rf "/tmp/seed/$P-out/$V"; mkdir -p "/tmp/seed/$P-out/$V"; cp -r "$D"/patch.diff "$D"/demo "$D"/meta.json "/tmp/seed/$P-out/$V/" 2>/dev/null
-  CHECKS="$P"
-  case "$ID" in C05-B) CHECKS="C05 C18";; C14-A) CHECKS="C14 C07";; esac
-  SEED_SKIP_TESTS=1 ./tools_seed.sh "$P" "$V" $CHECKS 2>&1 | tail -1
+  rm -rf "/tmp/seedall/$P-out/$V"; mkdir -p "/tmp/seedall/$P-out/$V"; cp -r "$D"/patch.diff "$D"/demo "$D"/meta.json "/tmp/seedall/$P-out/$V/" 2>/dev/null
+  # checks recorded at the last confirmation that reported violations (default: the property's own)
+  CHECKS=$(jq -r '.coordinator_confirmation.checks_run[]? | select(test(":exit=1:")) | split(":")[0]' "$D/meta.json" 2>/dev/null | tr '\n' ' ')
+  [ -n "$CHECKS" ] || CHECKS="$P"
+  SEED_ROOT=/tmp/seedall SEED_SKIP_TESTS=1 ./tools_seed.sh "$P" "$V" $CHECKS 2>&1 | tail -1
 done
